@@ -162,7 +162,9 @@ class Workspace:
         if c == "slow":
             return "\n".join(pre + ["sleep 3"] + post)
         body = []
-        if t in self.h["checkt"] and c != "noest":
+        if t in self.h["checkt"] and c == "unest":
+            body += [f'rm -f "$GROG_WORKSPACE_ROOT/../ext/{t}"']
+        elif t in self.h["checkt"] and c != "noest":
             body += ['mkdir -p "$GROG_WORKSPACE_ROOT/../ext"', f'echo ok > "$GROG_WORKSPACE_ROOT/../ext/{t}"']
         if c == "omit":
             if out:
@@ -246,10 +248,27 @@ class Workspace:
         json.dump(self.render(st), open(os.path.join(pkgdir, "BUILD.json"), "w"), indent=1)
 
     # ---- running grog
-    def grog_cmd(self, args, cwd=None, env=None, timeout=120):
+    def grog_cmd(self, args, cwd=None, env=None, timeout=150):
+        """Runs grog. A process that is still there after `timeout` seconds is classified before it is killed: blocked
+        (almost no CPU consumed -> it is waiting for something that will not happen) or merely slow (-> infrastructure)."""
+        proc = subprocess.Popen([self.grog] + args, cwd=cwd or self.ws, env=env or self.env, stdout=subprocess.PIPE, stderr=subprocess.PIPE, text=True,
+                                start_new_session=True)
         try:
-            return subprocess.run([self.grog] + args, cwd=cwd or self.ws, env=env or self.env, capture_output=True, text=True, timeout=timeout)
+            out, err = proc.communicate(timeout=timeout)
+            return subprocess.CompletedProcess(args, proc.returncode, out, err)
         except subprocess.TimeoutExpired:
+            cpu = None
+            try:
+                f = open(f"/proc/{proc.pid}/stat").read().rsplit(")", 1)[1].split()
+                cpu = (int(f[11]) + int(f[12])) / os.sysconf("SC_CLK_TCK")
+            except Exception:
+                pass
+            try:
+                os.killpg(proc.pid, 9)
+            except Exception:
+                proc.kill()
+            proc.communicate()
+            self.last_timeout = {"cpu_s": cpu, "timeout_s": timeout, "blocked": cpu is not None and cpu < 10}
             return None
 
     def cache_dir(self):
@@ -397,7 +416,8 @@ def replay(grog, history, opts, scratch_root, literal_clean=True):
                     open(fpath, "w").close()
                 p = W.grog_cmd(W.build_args(act, st))
                 if p is None:
-                    note(i, "build-timeout", act=act)
+                    info = getattr(W, "last_timeout", {})
+                    note(i, "build-hang" if info.get("blocked") else "build-timeout", act=act, mode=act["mode"], model_ok=act["ok"], dec=act["dec"], **info)
                     break
                 lines = open(W.trace).read().split()
                 tl = open(W.trace).read().splitlines()
@@ -486,7 +506,16 @@ def replay(grog, history, opts, scratch_root, literal_clean=True):
 
 
 def attribute(m):
-    """Which property a mismatch between specification and implementation belongs to."""
+    """Which properties a mismatch between specification and implementation belongs to (a set)."""
+    a = attribute1(m)
+    if m["kind"] == "status" and m["real_ok"] and not m["model_ok"]:
+        return {"C05", "C14"}      # the build claims success although a target failed: failure not reported AND success without postconditions
+    if m["kind"] == "build-hang":
+        return {"C04"}
+    return {a}
+
+
+def attribute1(m):
     k = m["kind"]
     mode = m.get("mode")
     if k.startswith("harness-") or k in ("taint-command-failed", "build-timeout", "clean-build-failed"):
@@ -548,13 +577,13 @@ def run_histories(chk, tmp, grog, histories, prop, literal_clean, label, opts_of
         chk.count(acts, nontrivial=stats["builds"] >= 2)
         seen = set()
         for m in mism:
-            p = attribute(m)
-            if p == "INFRA":
+            ps = attribute(m)
+            if "INFRA" in ps:
                 raise core.Infra(f"history driver problem: {m}")
             sig = f"build:{m['kind']}:" + (m.get("t") or "") + ":" + ",".join(sorted(set(m.get("why", []) if isinstance(m.get("why"), list) else [])))
             if m["kind"] == "exec-set":
                 sig = f"build:exec-set:missing={sorted(set(m['model']) - set(m['real']))}:extra={sorted(set(m['real']) - set(m['model']))}"
-            if p == prop:
+            if prop in ps:
                 if sig in seen:
                     continue
                 seen.add(sig)
@@ -562,7 +591,8 @@ def run_histories(chk, tmp, grog, histories, prop, literal_clean, label, opts_of
                 chk.violation(sig, f"{label}: after {steps} the implementation deviates from GrogBuild.tla: " + json.dumps({k: v for k, v in m.items() if k not in ('stderr_tail',)})[:700],
                               {"history": h, "mismatch": m})
             else:
-                others[p + ":" + m["kind"]] = others.get(p + ":" + m["kind"], 0) + 1
+                for p in ps:
+                    others[p + ":" + m["kind"]] = others.get(p + ":" + m["kind"], 0) + 1
     chk.cov.setdefault("replay", {})[label] = dict(tot, histories=len(histories), wall_s=round(time.time() - t0, 1))
     chk.cov.setdefault("anomalies_attributed_to_other_properties", {}).update(others)
     if histories:
